@@ -52,8 +52,11 @@ def opt_parts(v):
 
 
 def poly_eq(st, p, q):
+    """p == q on path st: syntactically after normalisation, or by the recorded facts"""
     d = st.norm(padd(p, q, -1))
-    return pis_const(d) == 0
+    if pis_const(d) is not None:
+        return pis_const(d) == 0
+    return st.sign(d) == frozenset((0,))
 
 
 def show_poly(st, p):
@@ -165,6 +168,10 @@ def query_trem(st, xp, c):
     p = st.norm(xp)
     if all(v % c == 0 for v in p.values()):
         return frozenset((0,)), None
+    cv = pis_const(p)
+    if cv is not None:
+        r = abs(cv) % c
+        return frozenset(((r > 0) * (1 if cv > 0 else -1),)), None
     for cand in (xp, p):
         a = st.atoms.lookup(('tdiv', pfreeze(cand), pfreeze(pconst(c))))
         if a is not None:
